@@ -207,7 +207,35 @@ def extra(tier, seed):
             raise NotModelled('no assignment to centers[i] in compute')
         d = fpx.FPDomain()
         a, g = d.var('a'), d.var('g')
-        it = fpx.Interp(d, {'x[np.argmax(dx)]': a, 'np.amax(dx)': g})
+        # abstraction: any element of the sorted coordinates is some a in
+        # [0,1), any element / maximum of the gap array is some g in [0,1]
+        _ast = __import__('ast')
+        env = {'x[np.argmax(dx)]': a, 'np.amax(dx)': g}
+        names = {}
+        for node in _ast.walk(fnc):
+            if isinstance(node, _ast.Assign) and \
+                    len(node.targets) == 1 and \
+                    isinstance(node.targets[0], _ast.Name):
+                src = _ast.unparse(node.value)
+                if src.startswith('np.sort('):
+                    names[node.targets[0].id] = 'sorted'
+                elif 'np.diff(' in src:
+                    names[node.targets[0].id] = 'gaps'
+        for node in _ast.walk(tgt):
+            src = _ast.unparse(node)
+            if isinstance(node, _ast.Subscript) and \
+                    isinstance(node.value, _ast.Name):
+                kind = names.get(node.value.id)
+                if kind == 'sorted':
+                    env[src] = a
+                elif kind == 'gaps':
+                    env[src] = g
+            elif isinstance(node, _ast.Call) and node.args and \
+                    isinstance(node.args[0], _ast.Name) and \
+                    names.get(node.args[0].id) == 'gaps' and \
+                    _ast.unparse(node.func) in ('np.amax', 'np.max', 'max'):
+                env[src] = g
+        it = fpx.Interp(d, env)
         cen = it.expr(tgt)
         s = z3.Solver()
         s.set('timeout', timeout)
